@@ -27,11 +27,11 @@ ENTRY = dict(
                 "probing round is in progress are not modelled"),
     technique="Lean 4 proof (fork kernel, join window theorem, kernel-checked witness) + exhaustive lock-step replay",
     lean_modules=["Bpmn.Props.EngineSteps", "Bpmn.Props.C05", "Bpmn.Props.C05Tracker", "Bpmn.Props.EngineCurrent"],
-    families=["c05", "c05d", "c05n", "c01re", "c01patient", "c05trk", "c05gone", "c05ebg"],
+    families=["c05", "c05d", "c05n", "c01re", "c01patient", "c05trk", "c05gone", "c05ebg", "c05err"],
     harness_files=["c03.go", "c01re.go", "c01patient.go", "c06.go"],
     exhaustive=True,
     facts_from=["Engine"],
-    rule=("c05ebg: the event-based-gateway cases of C06 whose alternatives are merged by an INCLUSIVE gateway (sequential deliveries and the enforced schedules in which the loser has taken its own event): a token the gateway withdrew has ended, the inclusive join behind must not wait for it — judged by the C06 replay; c05gone: an inclusive block (inside a sub-process, in a loop) activated again after a token of an earlier activation ENDED at a task inside it — handler mode exit, or a retry budget used up: the join of the later activation does not wait for the token that is gone (D42); c01re: the same inclusive fork / join pair activated 2..3 times in a loop, a different truth assignment in every round (all pairs of assignments for 2 conditions, a third of them for 3; default absent / first / last in the list; branch tasks answered first-first or last-first), judged against the token game; c05: start -> A -> inclusive fork (c conditions `b_i == 1`, optional default at list position d) -> one task per "
+    rule=("c05err: a condition that fails to evaluate (a number, not a truth value) listed before / between / after conditions of which one is true, at an inclusive fork and at an exclusive gateway, with and without a default flow: it counts as not true and is reported, the conditions listed after it are still evaluated; c05ebg: the event-based-gateway cases of C06 whose alternatives are merged by an INCLUSIVE gateway (sequential deliveries and the enforced schedules in which the loser has taken its own event): a token the gateway withdrew has ended, the inclusive join behind must not wait for it — judged by the C06 replay; c05gone: an inclusive block (inside a sub-process, in a loop) activated again after a token of an earlier activation ENDED at a task inside it — handler mode exit, or a retry budget used up: the join of the later activation does not wait for the token that is gone (D42); c01re: the same inclusive fork / join pair activated 2..3 times in a loop, a different truth assignment in every round (all pairs of assignments for 2 conditions, a third of them for 3; default absent / first / last in the list; branch tasks answered first-first or last-first), judged against the token game; c05: start -> A -> inclusive fork (c conditions `b_i == 1`, optional default at list position d) -> one task per "
           "branch -> inclusive join -> Z; all c in 1..4, d in {none,0..c}, all 2^c truth assignments, branch `early` ending at "
           "its own end event (quick: none / branch 0; thorough: every branch), finishing orders = permutations of the "
           "activated branches (quick: a third when more than two); c05d: 2..4 activated branches running straight from the fork to the join (no activity), optionally one branch with a task, repeated with and without schedule perturbation (the join's first arrival races the tracker); c05trk: 1500 (thorough 40000) seeded sequences of 1..8 FlowTraces / TerminationTraces over 4 tokens and 4 nodes fed to the real flowTracker.handleTrace, cohort of every token and reachedNode compared with the Lean port after every event; c05n: seeded programs nesting inclusive, parallel and "
